@@ -292,6 +292,7 @@ func (s *session) setVersion(r *sessionRecord, v *version) {
 		s.stVersion.releaseNB()
 	}
 	s.stVersion = v
+	verifVersionInstalled(s, v)
 }
 
 // Get current unused file number.
